@@ -131,8 +131,17 @@ def gen_geometry(tier, seed):
                 types = [1] * n if o["K"] == 1 else [1 + (i % 2) for i in range(n)]
                 if o["K"] == 2 and n < 2:
                     continue
-                yield {"slice": "geometry", "d": d, "cell": o["cell"], "H": H.tolist(), "w": o["w"], "placement": name,
-                       "frames": frames_for(seed, pts, o["F"], H, d), "types": types, "ppp": o["mask"], "csv": False}
+                base = {"slice": "geometry", "d": d, "cell": o["cell"], "H": H.tolist(), "w": o["w"], "placement": name,
+                        "frames": frames_for(seed, pts, o["F"], H, d), "types": types, "ppp": o["mask"], "csv": False}
+                yield base
+                if o["F"] > 1 and name in ("gas", "cluster", "lattice"):
+                    # per-frame attributes: the species attached to the ids (same composition) and the tilt factors (same edge
+                    # lengths: a sheared cell) change from frame to frame
+                    if o["K"] == 2:
+                        yield dict(base, types_frames=[types[f:] + types[:f] for f in range(o["F"])])
+                    if o["cell"].startswith("tri"):
+                        fac = [1.0, -1.0, 0.5]
+                        yield dict(base, H_frames=[(np.diag(np.diag(H)) + (H - np.diag(np.diag(H))) * fac[f]).tolist() for f in range(o["F"])])
 
 
 def gen_csv(tier, seed):
@@ -142,6 +151,9 @@ def gen_csv(tier, seed):
         for K in (1, 2, 3, 4, 5, 6):
             types = [1 + (i % K) for i in range(6)]
             yield {"slice": "csv", "d": d, "cell": "orth", "H": H.tolist(), "w": 0.1, "frames": frames_for(seed, pos, 2, H, d), "types": types, "ppp": [1] * d, "csv": True}
+            if 1 < K < 6:
+                yield {"slice": "csv", "d": d, "cell": "orth", "H": H.tolist(), "w": 0.1, "frames": frames_for(seed, pos, 2, H, d), "types": types,
+                       "types_frames": [types, types[1:] + types[:1]], "ppp": [1] * d, "csv": True}
 
 
 # ------------------------------------------------------------------------------------- oracle
@@ -158,11 +170,17 @@ def run(case):
     ppp = np.array(case["ppp"])
     K = len(set(case["types"]))
     sig = {"slice": case["slice"], "K": K, "d": d, "cell": case["cell"], "F": len(frames), "masked": bool((ppp == 0).any())}
-    snaps = mk_snaps(frames, H, types)
+    tsrc = [np.array(t) for t in case["types_frames"]] if case.get("types_frames") else types
+    Hsrc = np.array(case["H_frames"], float) if case.get("H_frames") else H
+    if case.get("types_frames"):
+        sig["types_vary"] = True
+    if case.get("H_frames"):
+        sig["tilt_varies"] = True
+    snaps = mk_snaps(frames, Hsrc, tsrc)
     before = [s.positions.copy() for s in snaps.snapshots]
     out = "gr_out.csv" if case["csv"] else None
     res = gr(snaps, ppp=ppp, rdelta=w, outputfile=out).getresults()
-    cols, r, lo, hi, norm = ref_gr(frames, H, types, ppp, w)
+    cols, r, lo, hi, norm = ref_gr(frames, Hsrc, tsrc, ppp, w)
     exp_cols = ["r"] + cols
     if sorted(res.columns) != sorted(exp_cols) or res.columns[0] != "r":
         R.fail(f"columns {list(res.columns)} != {exp_cols}", sig=dict(sig, clause="columns"), exp=exp_cols, obs=list(res.columns))
